@@ -370,6 +370,13 @@ func runLBHealth(x *X) {
 				if everFailed[b.name] && r.inv.at <= lastFailAt[b.name]+W {
 					eligible = false
 				}
+				// ... and so may a failed probe: it ejects for a full window from the moment it ends,
+				// and with a zero window (active-only configurations) that window is the instant
+				// itself -- which no observation ever shows as a flag (sweep #15: a request at the very
+				// instant a slow, failing probe ended was rightly told that nobody was eligible)
+				if at, ok := failedProbeAt[b.name]; ok && failedProbe[b.name] && r.inv.at <= at+W {
+					eligible = false
+				}
 				if eligible {
 					subset := ""
 					for _, bb := range net.order {
